@@ -8,6 +8,7 @@ import itertools
 
 MODES = {
     'normal': "x = 1\nprint(x)\n",
+    'timeout': "print('started')\nwhile True:\n    pass\n",
     'ValueError': "raise ValueError('bad')\n",
     'ZeroDivision': "print('before')\n1/0\n",
     'NameError': "print(undefined)\n",
@@ -83,6 +84,9 @@ def fresh(tracer):
 
 def execute(sb, entry, mode):
     code = MODES[mode]
+    if mode == 'timeout':
+        sb.threaded = True
+        sb.allowed_time = 0.3
     if entry == 'run_with_import':
         sb.report.submission.files['helper.py'] = code
         return sb.run("import helper\n", filename='answer.py')
@@ -107,7 +111,7 @@ def one(entry, mode, tracer, prop):
     if entry == 'run_with_import' and mode in ('stdout_closed', 'stdout_closed_then_error'):
         return []
     before = snapshot(sb)
-    before['check_trace'] = (tracer == 'native')
+    before['check_trace'] = tracer in ('native', 'calls')
     n_rt = len([f for f in report.feedback + report.ignored_feedback if f.category == 'runtime'])
     escaped = None
     try:
@@ -142,6 +146,7 @@ def one(entry, mode, tracer, prop):
             fails.append(('restore', '%s/%s/%s: %s' % (entry, mode, tracer, d)))
         # a later execution must capture output normally
         try:
+            sb.threaded = False
             sb2 = sb.run("print('later')", filename='answer.py')
             if not sb.raw_output.endswith('later\n'):
                 fails.append(('later_output', '%s/%s/%s: a later execution did not capture its output' % (entry, mode, tracer)))
@@ -157,10 +162,12 @@ def bounded(arg):
     failures, samples = [], []
     evaluations = 0
     distinct = set()
-    tracers = ['none', 'native'] if True else tracers
+    tracers = ['none', 'native', 'calls']
     for entry, mode, tracer in itertools.product(('run', 'call', 'evaluate', 'run_with_import'), MODES, tracers):
-        if quick and tracer == 'native' and entry in ('call', 'evaluate'):
+        if quick and tracer != 'none' and entry in ('call', 'evaluate'):
             continue
+        if tracer == 'calls' and (mode in ('own_settrace', 'RecursionError', 'timeout') or (quick and entry != 'run_with_import')):
+            continue            # bdb-based tracing: student settrace / deep recursion / async exceptions are out of its contract
         evaluations += 1
         distinct.add((entry, mode, tracer))
         try:
@@ -178,7 +185,7 @@ def bounded(arg):
             failures.append({'id': what, 'canon': canon, 'detail': detail, 'entry': entry, 'mode': mode})
     # sequences of executions: the stacks stay empty
     return {'name': 'B-sandbox', 'bound': 'product of %d termination modes x 4 entry points (run, call, evaluate, run with a nested '
-            'import of a second student file) x tracer styles none/native' % len(MODES), 'evaluations': evaluations, 'distinct_nontrivial': len(distinct), 'exhaustive': True,
+            'import of a second student file) x tracer styles none/native/calls (coverage needs the absent `coverage` package); timeout = threaded busy loop, 0.3 s' % len(MODES), 'evaluations': evaluations, 'distinct_nontrivial': len(distinct), 'exhaustive': True,
         'rule': 'distinct = (entry point, termination mode, tracer)', 'samples': samples, 'failures': failures}
 
 
